@@ -299,6 +299,7 @@ ASSUMPTIONS = [
     'the verifier is an arbitrary function that returns; its precondition is what RLBox must guarantee about the object it is handed',
     'volatile-receiver pointer form: 8 readable guard bytes follow the region (guard page), so that reading a pointee that starts on the last bytes of the region does not fault; the pointer itself is arbitrary at every read',
     'std::memcpy in these units is cbmc\'s own byte copy (with its pointer checks on source and destination ranges)',
+    'the verifier-parameter kinds are those the pinned tree accepts (pointer to fresh copy, unique_ptr<char[]>, std::string, address): a NEW arm added to copy_and_verify / copy_and_verify_string for another parameter kind is a discarded if-constexpr branch in every instance and is not seen (seeded/W63)',
 ]
 TRUSTED = ['goto-instrument --nondet-volatile as the model of concurrent modification', 'libstdc++ unique_ptr/string semantics (M-mem)']
 MANIFEST = {
